@@ -82,6 +82,17 @@ func loadKnown() *KnownFindings {
 	return kf
 }
 
+// matchWitness: a bounded-check failure is a known finding only if its failing input carries the recorded witness.
+func (kf *KnownFindings) matchWitness(prop, obl, failLine string) *Finding {
+	for i := range kf.Findings {
+		f := &kf.Findings[i]
+		if f.Property == prop && f.Obligation == obl && f.Witness != "" && strings.Contains(failLine, f.Witness) {
+			return f
+		}
+	}
+	return nil
+}
+
 func (kf *KnownFindings) match(prop, obl string) *Finding {
 	for i := range kf.Findings {
 		f := &kf.Findings[i]
@@ -120,7 +131,8 @@ type HarnessRun struct {
 	Def      HarnessDef
 	Ran      bool
 	Failed   bool
-	FailLine string // GOVC-FAIL payload
+	FailLine string // first GOVC-FAIL payload
+	FailLines []string // every GOVC-FAIL payload (a harness may go on after a failure)
 	Cases    int
 	Output   string
 	BuildErr bool
@@ -160,6 +172,7 @@ func runHarness(h HarnessDef, tier string, seed int64, replay string) HarnessRun
 		l = strings.TrimSpace(l)
 		if i := strings.Index(l, "GOVC-FAIL "); i >= 0 {
 			hr.Failed = true
+			hr.FailLines = append(hr.FailLines, l[i+len("GOVC-FAIL "):])
 			if hr.FailLine == "" {
 				hr.FailLine = l[i+len("GOVC-FAIL "):]
 			}
@@ -440,13 +453,27 @@ func runCheck(p *PropDef, tier string, seed int64) int {
 		}
 	}
 	harnessRuns := map[string]*HarnessRun{}
+	harnessByTest := map[string]*HarnessRun{}
 	harnessFor := func(fn string) *HarnessRun {
 		if hr, ok := harnessRuns[fn]; ok {
 			return hr
 		}
+		serves := func(h HarnessDef) bool {
+			for _, pid := range h.Props {
+				if pid == p.ID {
+					return true
+				}
+			}
+			return false
+		}
 		for _, h := range cc.harnesses {
-			if h.Func == fn {
+			if h.Func == fn && serves(h) {
+				if hr, ok := harnessByTest[h.Test]; ok {
+					harnessRuns[fn] = hr
+					return hr
+				}
 				hr := runHarness(h, tier, seed, "")
+				harnessByTest[h.Test] = &hr
 				harnessRuns[fn] = &hr
 				return &hr
 			}
@@ -473,6 +500,7 @@ func runCheck(p *PropDef, tier string, seed int64) int {
 		return nil
 	}
 	knownPrinted := map[string]bool{}
+	reportedHarness := map[string]bool{}
 	for _, o := range fails {
 		if o.Result == "disagree" {
 			fmt.Fprintf(os.Stderr, "govc: solvers disagree on %s\n", o.Name)
@@ -526,13 +554,31 @@ func runCheck(p *PropDef, tier string, seed int64) int {
 				continue
 			}
 			hr := harnessFor(h.Func)
-			if hr != nil && hr.Failed {
-				if f := cc.kf.match(p.ID, h.Func+"#bounded"); f != nil {
-					fmt.Printf("KNOWN-FINDING: property=%s %s\n", p.ID, f.What)
-					continue
+			if hr != nil && hr.Failed && !reportedHarness[h.Test] {
+				reportedHarness[h.Test] = true
+				// every failing input is either a recorded finding (matched by its witness) or a violation
+				unknown := false
+				lines := hr.FailLines
+				if len(lines) == 0 {
+					lines = []string{hr.FailLine}
 				}
-				o := &Obligation{Name: h.Func + "#bounded", Func: h.Func, Text: "bounded cross-check of the executable contract", Result: "bounded-check-failed"}
-				cc.reportViolation(o, hr)
+				for _, fl := range lines {
+					if f := cc.kf.matchWitness(p.ID, h.Func+"#bounded", fl); f != nil {
+						if !knownPrinted[f.Witness] {
+							knownPrinted[f.Witness] = true
+							fmt.Printf("KNOWN-FINDING: property=%s %s\n", p.ID, f.What)
+						}
+						continue
+					}
+					if !unknown {
+						hr.FailLine = fl
+					}
+					unknown = true
+				}
+				if unknown {
+					o := &Obligation{Name: h.Func + "#bounded", Func: h.Func, Text: "bounded cross-check of the executable contract", Result: "bounded-check-failed"}
+					cc.reportViolation(o, hr)
+				}
 			}
 		}
 	}
